@@ -9,7 +9,7 @@ for cfg in ("std", "alloc", "core"):
     f, _ = facts.extract(cfg)
     for b in f["bodies"]:
         if b["kind"] in ("Fn", "AssocFn"):
-            fs.add(b["cdef"])
+            fs.add(b["def"])
 head = subprocess.check_output(["git", "-C", facts.REPO, "rev-parse", "HEAD"], text=True).strip()
 out = os.path.join(os.path.dirname(os.path.abspath(__file__)), "..", "engine", "vocabulary.json")
 json.dump({"_comment": "crate-local functions of the pinned tree; calls to any other crate-local sync function are inlined before analysis",
